@@ -466,7 +466,8 @@ def gen_universe(rng, n_classes=4, max_fields=4, namespaces=('urn:t',), bases=No
                     f['min'] = min(f['min'], f['max'])
             elif allow_default and ty[0] == 'leaf' and r < 0.58 and ty[1]['base'] not in ('base64Binary',):
                 dv = gen_leaf_value(rng, ty[1], True)
-                if dv is not None and not (dv[0] == 'dbl' and dv[1] in ('inf', '-inf', 'nan')):
+                if dv is not None and not (dv[0] == 'dbl' and dv[1] in ('inf', '-inf', 'nan')) \
+                        and not (dv[0] == 'dec' and 'E' in str(D(dv[1]))):
                     f['default'] = dv
             elif allow_choice and r < 0.75 and f['kind'] == 'elem':
                 # a choice group: this member and possibly the next ones
